@@ -17,4 +17,4 @@ json.dump(m,open('/verif/seeded/%s/meta.json'%name,'w'),indent=1)
 PY
 }
 export -f run_one
-ls seeded | grep -E "-($(echo $SUF | tr ' ' '|'))$" | xargs -P 4 -I{} bash -c 'run_one {}'
+ls seeded | grep -E -e "-($(echo $SUF | tr ' ' '|'))\$" | xargs -P 4 -I{} bash -c 'run_one {}'
